@@ -2,8 +2,8 @@
    from the case's arguments, the canonical observation the Rust harness
    printed for the implementation. Everything is numbers: arguments are lists
    of integers, observations are lists of integers. Definitions only. *)
-Require Import BV.Model.Base BV.Model.SrcB BV.Model.Length BV.Model.Tag.
-Open Scope Z_scope.
+Require Import BV.Model.Base BV.Model.SrcB BV.Model.Length BV.Model.Tag BV.Model.Twos BV.Model.Int.
+Local Open Scope Z_scope.
 
 Definition zs_to_ns (l : list Z) : list N := map Z.to_N l.
 Definition ns_to_zs (l : list N) : list Z := map Z.of_N l.
@@ -77,12 +77,69 @@ Definition s_c12_takeif (args : list (list Z)) : list Z :=
   | _ => [-1]
   end.
 
+(* ---- C14 ---- *)
+Definition enc_z (v : Z) : list Z := [v].
+Definition enc_unit (_ : unit) : list Z := [].
+Definition s_c14_dec (args : list (list Z)) : list Z :=
+  enc_res enc_z (prim_decode (int_accessor (argn 0 args)) (argb 2 args)).
+Definition s_c14_bool (args : list (list Z)) : list Z :=
+  enc_res enc_bool (prim_decode (to_bool (argm 0 args)) (argb 1 args)).
+Definition s_c14_null (args : list (list Z)) : list Z :=
+  enc_res enc_unit (prim_decode to_null (argb 0 args)).
+Definition s_c14_enc (args : list (list Z)) : list Z :=
+  let ty := argn 0 args in let v := argz 1 args in
+  match ty with
+  | 10%N => enc_bytes (Int.enc_bool (negb (v =? 0))) ++ [1]
+  | 11%N => [0; 0]
+  | _ => enc_bytes (enc_int ty v) ++ enc_n (enc_int_len ty v)
+  end.
+Definition skip_u8_if_prim (e : Z) : M unit :=
+  v <- u8_from_primitive ;; if v =? e then ret tt else cerr.
+Definition s_c14_skipif (args : list (list Z)) : list Z :=
+  let r := enc_res enc_unit (prim_decode (skip_u8_if_prim (argz 0 args)) (argb 1 args)) in
+  r ++ r ++ r.
+
+(* ---- C15 ---- *)
+Definition enc_cmp (c : comparison) : list Z :=
+  match c with Lt => [-1] | Eq => [0] | Gt => [1] end.
+Definition s_c15_cmp (args : list (list Z)) : list Z :=
+  let a := argb 0 args in let b := argb 1 args in
+  enc_res enc_cmp (int_cmp a b) ++ enc_bool (int_eq a b) ++ enc_bool (list_eqb a b).
+Definition s_c15_pred (args : list (list Z)) : list Z :=
+  let a := argb 0 args in
+  enc_res enc_bool (int_is_zero a) ++ enc_res enc_bool (int_is_positive a)
+  ++ enc_res enc_bool (int_is_negative a).
+Definition s_c15_tryfrom (args : list (list Z)) : list Z :=
+  let ty := argn 0 args in let a := argb 1 args in
+  enc_res enc_z (int_try_from ty a) ++
+  (if is_ok (prim_decode unsigned_int_from_primitive a)
+   then enc_res enc_z (int_try_from ty a) else [9]).
+Definition s_c15_from (args : list (list Z)) : list Z :=
+  enc_bytes (enc_int (argn 0 args) (argz 1 args)).
+Definition s_c15_frombytes (args : list (list Z)) : list Z :=
+  enc_res enc_bytes (unsigned_from_bytes (argb 0 args)).
+Definition s_c15_decode (args : list (list Z)) : list Z :=
+  let c := argb 0 args in
+  enc_res enc_bytes (prim_decode integer_from_primitive c) ++
+  enc_res enc_bytes (prim_decode unsigned_int_from_primitive c).
+
 Definition run_stream (sid : N) (args : list (list Z)) : list Z :=
   match sid with
   | 1201%N => s_c12_new args
   | 1202%N => s_c12_read args
   | 1203%N => s_c12_takeif args
   | 1301%N => s_c13_write args
+  | 1401%N => s_c14_dec args
+  | 1402%N => s_c14_bool args
+  | 1403%N => s_c14_null args
+  | 1404%N => s_c14_enc args
+  | 1406%N => s_c14_skipif args
+  | 1501%N => s_c15_cmp args
+  | 1502%N => s_c15_pred args
+  | 1503%N => s_c15_tryfrom args
+  | 1504%N => s_c15_from args
+  | 1505%N => s_c15_frombytes args
+  | 1506%N => s_c15_decode args
   | 1302%N => s_c13_read args
   | _ => [-999]
   end.
